@@ -82,13 +82,13 @@ def judge_default(t, m, names, lines, start, stopset, hidden, ml, ctx, indent=""
     return ids
 
 
-def check_shape(t, shape, rot=0, only=None, extras=True):
+def check_shape(t, shape, rot=0, only=None, extras=True, kind="node"):
     from anytree.exporter import MermaidExporter
 
     m = tree.Model.from_shape(shape)
     names = names_for(m, rot)
-    nodes = tree.build(m, tree.default_factory("node"), "topdown", names=names)
-    ctx = {"shape": shape, "rot": rot}
+    nodes = tree.build(m, tree.default_factory(kind), "topdown", names=names)
+    ctx = {"shape": shape, "rot": rot, "kind": kind}
     for start in range(m.n):
         t.c["states"] += 1
         sub = m.pre(start)
@@ -196,6 +196,43 @@ def check_histories(t, m, names, ctx):
             if sorted(p2["edges"]) != sorted((p, c) for c, p in par.items()):
                 t.violation("C13: edges after tree growth use wrong identifiers", dict(ctx, engine="E2", module=MOD, history="grow",
                             names=names, first=seq, observed=seq2, start=0, stop=[], filtered_out=[], maxlevel=None))
+    # export, detach a node that was numbered early, attach a new one, export again: identifiers stay distinct, known
+    # nodes keep theirs
+    if m.n >= 3:
+        hn = ["h%d" % i for i in range(m.n)]
+        nodes = tree.build(m, tree.default_factory("node"), "topdown", names=hn)
+        e = MermaidExporter(nodes[0])
+        p1 = parse_default(list(e), "", 0)
+        victim = 1
+        nodes[victim].parent = None
+        extra = anytree.Node("hx", parent=nodes[0])
+        seq2 = list(e)
+        p2 = parse_default(seq2, "", 0)
+        t.c["history_runs"] += 1
+        if isinstance(p1, str) or isinstance(p2, str):
+            t.violation("C13: output after detach+attach cannot be decoded", dict(ctx, engine="E2", module=MOD, history="detach-attach",
+                        names=hn, observed=seq2, start=0, stop=[], filtered_out=[], maxlevel=None))
+        else:
+            id1 = {lab: i for i, lab in p1["nodes"]}
+            id2 = {lab: i for i, lab in p2["nodes"]}
+            ids2 = [i for i, _ in p2["nodes"]]
+            gone = set(hn[v] for v in m.pre(victim))
+            want_labels = [hn[v] for v in m.pre(0) if hn[v] not in gone] + ["hx"]
+            why = None
+            if [lab for _, lab in p2["nodes"]] != want_labels:
+                why = "declared nodes after detach+attach differ from the tree's pre-order"
+            elif len(set(ids2)) != len(ids2):
+                why = "two declared nodes share an identifier after detach+attach on one exporter"
+            elif any(id1[lab] != id2[lab] for lab in id2 if lab in id1):
+                why = "identifier of a known node changed after detach+attach"
+            else:
+                par = {hn[v]: hn[m.par[v]] for v in range(1, m.n) if hn[v] not in gone}
+                par["hx"] = hn[0]
+                if sorted(p2["edges"]) != sorted((id2[p], id2[c]) for c, p in par.items()):
+                    why = "edges after detach+attach do not connect the declared identifiers of the links"
+            if why:
+                t.violation("C13: " + why, dict(ctx, engine="E2", module=MOD, history="detach-attach", names=hn, observed=seq2,
+                                                start=0, stop=[], filtered_out=[], maxlevel=None))
     # reconfigure filter_ / stop / maxlevel between iterations of one exporter
     nodes = tree.build(m, tree.default_factory("node"), "topdown", names=names)
     for mode in ("filter", "stop", "attr"):
@@ -220,8 +257,11 @@ def check_histories(t, m, names, ctx):
 
 def job(items, extras):
     t = core.Tally()
-    for shape, rot in items:
-        core.guard(t, "C13", {"engine": "E2", "module": MOD, "shape": shape, "rot": rot}, check_shape, t, shape, rot, None, extras)
+    for item in items:
+        shape, rot = item[:2]
+        kind = item[2] if len(item) > 2 else "node"
+        core.guard(t, "C13", {"engine": "E2", "module": MOD, "shape": shape, "rot": rot, "kind": kind}, check_shape, t, shape, rot, None,
+                   extras and kind == "node", kind)
     return t
 
 
@@ -234,7 +274,7 @@ def replay(c):
     only = None
     if "history" not in c and not c.get("custom") and "start" in c and "observed" in c and isinstance(c.get("stop"), list) and "first" not in c:
         only = (c["start"], sorted(c["stop"]), sorted(c["filtered_out"]), c["maxlevel"])
-    check_shape(t, _tup(c["shape"]), c.get("rot", 0), only)
+    check_shape(t, _tup(c["shape"]), c.get("rot", 0), only, kind=c.get("kind", "node"))
     return [v["why"] for v in t.violations]
 
 
@@ -242,6 +282,7 @@ def run(tier):
     nmax = 5 if tier == "quick" else 6
     items = [(s, r) for s in tree.shapes_upto(nmax - 1) for r in ((0, 3) if tier == "quick" else (0, 3, 7))]
     items += [(s, 1 + k % 5) for k, s in enumerate(tree.plane_trees(nmax))]
+    items += [(s, 2, kind) for kind in ("eqhash", "falsy", "weird") for s in tree.shapes_upto(nmax - 1)]
     t = core.Tally()
     core.run_pool([(MOD, "job", {"items": [it], "extras": True}) for it in items[::-1]], 0, into=t)
     core.run_pool([(MOD, "job", {"items": c, "extras": False}) for c in core.chunks([(s, 1) for s in tree.shapes_upto(3)], core.NPROC)], 1, into=t)
